@@ -182,3 +182,271 @@ c.loop(('selector_components[::-1]', None),
        [Clause('wf_except_cursor/' + lbl, _inv_wf(i))
         for i, (lbl, _) in enumerate(wf_parts(SelectorMap.fresh('dummy')))],
        havoc=['self._selector_tree'], before=_setitem_before, ghost_step=_setitem_step)
+
+
+# ==== matching_selectors =========================================================================
+# dsuffix(p, s)  <=>  anc(comps(p), comps(s)):  the path of p is an ancestor-or-equal of the
+# path of s.  anc is defined by structural recursion on its second argument (A1-A3);
+# everything else about it is a LEMMA proved by structural induction (two VCs each).
+sg_ = z3.Const('sg!t', PathS)
+nu_ = z3.Const('nu!t', PathS)
+mu_ = z3.Const('mu!t', PathS)
+i_ = z3.Int('i!t')
+j_ = z3.Int('j!t')
+t2_ = z3.Int('t2!t')
+
+
+def anc(a, b):
+  return sym.ufun('anc', PathS, PathS, sym.BoolS)(a, b)
+
+
+def anc_definition():
+  return z3.And(
+      sym.forall([nu_], anc(nu_, nil) == (nu_ == nil), patterns=[anc(nu_, nil)]),
+      sym.forall([nu_, sg_, c_], anc(nu_, snoc(sg_, c_)) ==
+                 z3.Or(nu_ == snoc(sg_, c_), anc(nu_, sg_)),
+                 patterns=[anc(nu_, snoc(sg_, c_))]))
+
+
+def depth(p):
+  return sym.ufun('depth', PathS, sym.IntS)(p)
+
+
+def depth_definition():
+  return z3.And(depth(nil) == 0, sym.forall(
+      [sg_, c_], depth(snoc(sg_, c_)) == depth(sg_) + 1, patterns=[depth(snoc(sg_, c_))]))
+
+
+def dsuffix_definition():
+  return sym.forall([s_, t_], dsuffix(s_, t_) == anc(comps(s_), comps(t_)),
+                    patterns=[dsuffix(s_, t_)])
+
+
+def induct(x, name, P, flat):
+  """Structural induction over paths: proves  forall sg. P(sg)  from  P(nil)  and
+  forall sg, c. P(sg) => P(snoc(sg, c));  `flat` is the same statement as ONE quantifier
+  block with explicit triggers (what is assumed afterwards)."""
+  q = x.path.qual
+  sg0 = x.path.fresh_const('ind_sg', PathS)
+  c0 = x.path.fresh_const('ind_c', sym.Str)
+  x.path.oblige(f'{q}/lemma/{name}/base', P(nil))
+  x.path.oblige(f'{q}/lemma/{name}/step', z3.Implies(P(sg0), P(snoc(sg0, c0))))
+  x.path.assume(flat)
+
+
+def lemmas(x, alive):
+  """anc lemmas used by the walk and the DFS (each proved by induction, then assumed)."""
+  induct(x, 'root_is_ancestor_of_all', lambda sg: anc(nil, sg),
+         sym.forall([sg_], anc(nil, sg_), patterns=[anc(nil, sg_)]))
+  induct(x, 'parent_of_ancestor', lambda sg: sym.forall(
+      [nu_, c_], z3.Implies(anc(snoc(nu_, c_), sg), anc(nu_, sg)),
+      patterns=[anc(snoc(nu_, c_), sg)]),
+      sym.forall([sg_, nu_, c_], z3.Implies(anc(snoc(nu_, c_), sg_), anc(nu_, sg_)),
+                 patterns=[anc(snoc(nu_, c_), sg_)]))
+  induct(x, 'ancestors_of_alive_are_alive', lambda sg: sym.forall(
+      [nu_], z3.Implies(z3.And(alive[sg], anc(nu_, sg)), alive[nu_]),
+      patterns=[anc(nu_, sg)]),
+      sym.forall([sg_, nu_], z3.Implies(z3.And(alive[sg_], anc(nu_, sg_)), alive[nu_]),
+                 patterns=[anc(nu_, sg_)]))
+  induct(x, 'descendant_is_under_a_child', lambda sg: sym.forall(
+      [nu_], z3.Implies(z3.And(anc(nu_, sg), nu_ != sg),
+                        z3.Exists([c_], anc(snoc(nu_, c_), sg))),
+      patterns=[anc(nu_, sg)]),
+      sym.forall([sg_, nu_], z3.Implies(z3.And(anc(nu_, sg_), nu_ != sg_),
+                                        z3.Exists([c_], anc(snoc(nu_, c_), sg_))),
+                 patterns=[anc(nu_, sg_)]))
+  induct(x, 'ancestor_is_not_deeper', lambda sg: z3.And(depth(sg) >= 0, sym.forall(
+      [nu_], z3.Implies(anc(nu_, sg), depth(nu_) <= depth(sg)), patterns=[anc(nu_, sg)])),
+      z3.And(sym.forall([sg_], depth(sg_) >= 0, patterns=[depth(sg_)]),
+             sym.forall([sg_, nu_], z3.Implies(anc(nu_, sg_), depth(nu_) <= depth(sg_)),
+                        patterns=[anc(nu_, sg_)])))
+  induct(x, 'children_subtrees_disjoint', lambda sg: sym.forall(
+      [nu_, c_, t_], z3.Implies(z3.And(anc(snoc(nu_, c_), sg), anc(snoc(nu_, t_), sg)),
+                                c_ == t_),
+      patterns=[[anc(snoc(nu_, c_), sg), anc(snoc(nu_, t_), sg)]]),
+      sym.forall([sg_, nu_, c_, t_], z3.Implies(
+          z3.And(anc(snoc(nu_, c_), sg_), anc(snoc(nu_, t_), sg_)), c_ == t_),
+          patterns=[[anc(snoc(nu_, c_), sg_), anc(snoc(nu_, t_), sg_)]]))
+
+
+c = _attach_wf('matching_selectors')
+c.local_kinds = {'selector_components': StrList, 'selectors': StrList}
+c.require('partial_selector_is_a_dotted_name', lambda x: valid(x.a.partial_selector.e))
+c.require('definition_of_ancestor', lambda x: anc_definition())
+c.require('definition_of_dotted_suffix', lambda x: dsuffix_definition())
+c.require('definition_of_depth', lambda x: depth_definition())
+c.require('valid_names_are_not_empty', lambda x: sym.forall(
+    [s_], z3.Implies(valid(s_), s_ != sym.str_lit('')), patterns=[valid(s_)]))
+c.ensure('tree_untouched', lambda x: SelTree.box(x.self_new.fields['_selector_tree']) ==
+         SelTree.box(x.self_old.fields['_selector_tree']))
+c.notes.append('termination of the DFS is not proved (partial correctness)')
+
+
+def _Lp(x):
+  return split_dot(x.a.partial_selector.e)
+
+
+def _rp_def(x, L):
+  """Definition of rp as a (guarded) recursive equation, triggered on rp(L, j)."""
+  Lb = StrList.box(L)
+  return z3.And(rp(Lb, z3.IntVal(0)) == nil, sym.forall(
+      [j_], z3.Implies(j_ >= 1, rp(Lb, j_) == snoc(rp(Lb, j_ - 1), L.arr[L.len - j_])),
+      patterns=[rp(Lb, j_)]))
+
+
+def _walk_before(ex, x):
+  L = _Lp(x)
+  alive = T(x.env.self)[0]
+  x.path.assume(rp(StrList.box(L), z3.IntVal(0)) == nil)        # definition of rp
+  i = z3.Int('i!sc')
+  x.path.assume(sym.forall([i], z3.Implies(z3.And(0 <= i, i < L.len),
+                                           L.arr[i] != sym.str_lit('$')), patterns=[L.arr[i]]))
+  lemmas(x, alive)
+  # every consumed prefix of the reversed components is an ancestor of comps(p)
+  n = L.len
+  Lb = StrList.box(L)
+  j0 = x.path.fresh_const('ind_j', sym.IntS)
+  q = 'selector_map.py::SelectorMap.matching_selectors/lemma/prefix_paths_are_ancestors'
+  P = lambda j: anc(rp(Lb, j), rp(Lb, n))
+  # definition of rp, instance j0+1 (j0 arbitrary)
+  x.path.assume(rp(Lb, j0 + 1) == snoc(rp(Lb, j0), L.arr[L.len - (j0 + 1)]))
+  x.path.oblige(q + '/base', P(n))
+  x.path.oblige(q + '/step', z3.Implies(z3.And(0 <= j0, j0 < n, P(j0 + 1)), P(j0)))
+  x.path.assume(sym.forall([j_], z3.Implies(z3.And(0 <= j_, j_ <= n), P(j_)),
+                           patterns=[rp(Lb, j_)]))
+
+
+def _walk_inv(x, k):
+  node = tree.as_node(x.env.node)
+  alive = T(x.env.self)[0]
+  return z3.And(node.path == rp(StrList.box(_Lp(x)), k), alive[node.path],
+                SelTree.box(x.env.self.fields['_selector_tree']) ==
+                SelTree.box(x.self_old.fields['_selector_tree']),
+                same_map(x.env.self, x.self_old))
+
+
+def _walk_step(ex, x, k):
+  L = _Lp(x)
+  x.path.assume(rp(StrList.box(L), k + 1) ==
+                snoc(rp(StrList.box(L), k), L.arr[L.len - 1 - k]))
+
+
+c.loop(('reversed(selector_components)', None),
+       [Clause('cursor_is_at_the_path_of_the_consumed_components', _walk_inv)],
+       before=_walk_before, body_start=_walk_step)
+
+
+# -- the DFS --------------------------------------------------------------------------------------
+def _start(x):
+  L = _Lp(x)
+  return rp(StrList.box(L), L.len)
+
+
+def _dfs_inv_parts(x):
+  sm = x.env.self
+  alive, term, tval, tnone = T(sm)
+  sel = x.env.selectors
+  st = x.env.dfs_stack
+  nu0 = _start(x)
+  owner = x.env.ghost_owner.val      # ghost: collected path -> index in `selectors`
+  parts = [
+      ('tree_and_map_untouched', z3.And(
+          SelTree.box(sm.fields['_selector_tree']) ==
+          SelTree.box(x.self_old.fields['_selector_tree']), same_map(sm, x.self_old))),
+      ('stack_nodes_are_alive_and_under_the_start', sym.forall(
+          [t2_], z3.Implies(z3.And(0 <= t2_, t2_ < st.len),
+                            z3.And(alive[st.arr[t2_]], anc(nu0, st.arr[t2_]))),
+          patterns=[st.arr[t2_]])),
+      ('collected_are_terminals_under_the_start', z3.And(sel.len >= 0, sym.forall(
+          [i_], z3.Implies(z3.And(0 <= i_, i_ < sel.len), z3.Exists(
+              [sg_], z3.And(term[sg_], anc(nu0, sg_), tval[sg_] == sel.arr[i_],
+                            owner[sg_] == i_))), patterns=[sel.arr[i_]]))),
+      ('every_terminal_under_the_start_is_collected_or_pending', sym.forall(
+          [sg_], z3.Implies(z3.And(term[sg_], anc(nu0, sg_)), z3.Or(
+              z3.And(0 <= owner[sg_], owner[sg_] < sel.len, sel.arr[owner[sg_]] == tval[sg_]),
+              z3.Exists([t2_], z3.And(0 <= t2_, t2_ < st.len, anc(st.arr[t2_], sg_))))),
+          patterns=[term[sg_]])),
+      ('collected_and_pending_are_disjoint', sym.forall(
+          [sg_, t2_], z3.Implies(
+              z3.And(term[sg_], 0 <= owner[sg_], owner[sg_] < sel.len,
+                     0 <= t2_, t2_ < st.len), z3.Not(anc(st.arr[t2_], sg_))),
+          patterns=[[owner[sg_], st.arr[t2_]]])),
+      ('pending_subtrees_are_disjoint', sym.forall(
+          [i_, t2_, sg_], z3.Implies(
+              z3.And(0 <= i_, i_ < t2_, t2_ < st.len, anc(st.arr[i_], sg_)),
+              z3.Not(anc(st.arr[t2_], sg_))),
+          patterns=[[anc(st.arr[i_], sg_), st.arr[t2_]]])),
+      ('owner_indexes_only_collected', sym.forall(
+          [sg_], z3.And(-1 <= owner[sg_], owner[sg_] < sel.len), patterns=[owner[sg_]])),
+      ('owner_is_injective_on_collected', sym.forall(
+          [sg_, mu_], z3.Implies(
+              z3.And(term[sg_], term[mu_], 0 <= owner[sg_], owner[sg_] < sel.len,
+                     owner[sg_] == owner[mu_]), sg_ == mu_),
+          patterns=[[owner[sg_], owner[mu_]]])),
+  ]
+  return parts
+
+
+GPath = sym.KDict(sym.KPath, KInt)
+c.ghost_vars['owner'] = lambda x: sym.VDict(GPath, z3.K(PathS, z3.BoolVal(True)),
+                                            z3.K(PathS, z3.IntVal(-1)))
+
+
+def _dfs_ghost(ex, x, k):
+  # hint (proved, then assumed): where each child of the popped node sits on the new stack
+  lc = x.ghost.get('last_children')
+  if lc is not None:
+    nd, n, keys, idx = lc
+    st = x.env.dfs_stack
+    base = st.len - n
+    alive = T(x.env.self)[0]
+    h = sym.forall([c_], z3.Implies(alive[snoc(nd.path, c_)], z3.And(
+        0 <= idx(c_), idx(c_) < n, st.arr[base + idx(c_)] == snoc(nd.path, c_))),
+        patterns=[idx(c_)])
+    x.path.oblige('selector_map.py::SelectorMap.matching_selectors/hint/'
+                  'children_positions_on_the_stack', h)
+    x.path.assume(h)
+    h2 = sym.forall([t2_], z3.Implies(z3.And(base <= t2_, t2_ < st.len), z3.And(
+        st.arr[t2_] == snoc(nd.path, keys[t2_ - base]), alive[st.arr[t2_]])),
+        patterns=[st.arr[t2_]])
+    x.path.oblige('selector_map.py::SelectorMap.matching_selectors/hint/'
+                  'new_stack_entries_are_children', h2)
+    x.path.assume(h2)
+    len0, arr0 = x.ghost['dfs_stack_at_step']
+    h4 = z3.And(base == len0 - 1, sym.forall(
+        [t2_], z3.Implies(z3.And(0 <= t2_, t2_ < len0 - 1), st.arr[t2_] == arr0[t2_]),
+        patterns=[arr0[t2_], st.arr[t2_]]))
+    x.path.oblige('selector_map.py::SelectorMap.matching_selectors/hint/'
+                  'older_stack_entries_keep_their_position', h4)
+    x.path.assume(h4)
+    h3 = sym.forall([sg_], z3.Implies(
+        z3.And(anc(nd.path, sg_), sg_ != nd.path, alive[sg_]),
+        z3.Exists([t2_], z3.And(base <= t2_, t2_ < st.len, anc(st.arr[t2_], sg_)))),
+        patterns=[anc(nd.path, sg_)])
+    x.path.oblige('selector_map.py::SelectorMap.matching_selectors/hint/'
+                  'proper_descendants_of_the_popped_node_are_under_a_pushed_child', h3)
+    x.path.assume(h3)
+  # ghost: if this iteration appended the terminal of the popped node, record its index
+  g = x.env.ghost_owner
+  sel = x.env.selectors
+  node = x.env.node
+  popped = node.node.path if isinstance(node, tree.VNodeCopy) else tree.as_node(node).path
+  grew = sel.len > x.ghost['dfs_sel_len_at_step']
+  newv = z3.If(grew, z3.Store(g.val, popped, sel.len - 1), g.val)
+  ex.frame.env['ghost_owner'] = sym.VDict(GPath, g.dom, newv)
+
+
+_NPARTS = 7
+c.loop(('dfs_stack', None),
+       [Clause('dfs/' + lbl, (lambda i: lambda x, k: _dfs_inv_parts(x)[i][1])(ii))
+        for ii, lbl in enumerate([
+            'tree_and_map_untouched', 'stack_nodes_are_alive_and_under_the_start',
+            'collected_are_terminals_under_the_start',
+            'every_terminal_under_the_start_is_collected_or_pending',
+            'collected_and_pending_are_disjoint', 'pending_subtrees_are_disjoint',
+            'owner_indexes_only_collected', 'owner_is_injective_on_collected'])],
+       ghost=['owner'], ghost_step=_dfs_ghost,
+       body_start=lambda ex, x, k: (
+           x.ghost.__setitem__('dfs_sel_len_at_step', x.env.selectors.len),
+           x.ghost.__setitem__('dfs_stack_at_step', (x.env.dfs_stack.len,
+                                                     x.env.dfs_stack.arr))))
